@@ -1189,6 +1189,17 @@ pub fn run_driver(prop: &dyn Property, tier: Tier, verif_dir: &Path) -> i32 {
             J::Arr(vio_paths.iter().map(|s| J::Str(s.clone())).collect()),
         ),
     ];
+    // summary of the coverage-guided campaign that ran just before (thorough tier)
+    if let Ok(t) = std::fs::read_to_string(verif_dir.join("work").join(format!("fuzz_{}.txt", id))) {
+        let kv: Vec<(String, J)> = t
+            .lines()
+            .filter_map(|l| l.split_once('='))
+            .map(|(k, v)| (k.to_string(), v.parse::<i64>().map(J::Int).unwrap_or_else(|_| J::Str(v.to_string()))))
+            .collect();
+        if !kv.is_empty() {
+            cov.push(("coverage_guided_fuzzing".to_string(), J::Obj(kv)));
+        }
+    }
     cov.extend(extra);
     let ev = J::Obj(vec![
         ("property_id".to_string(), J::Str(id.to_string())),
